@@ -40,6 +40,7 @@ class Runtime:
         self.counters = {}
         self.raised = []       # (path, idx, exception object)
         self.ends = []         # paths in completion order
+        self.bad_decisions = []  # paths of gates whose returned decision the framework must reject
 
     # -- common prologue of every body
     def _enter(self, path, args):
@@ -103,7 +104,10 @@ class Runtime:
                 raw = r2
                 break
         self.ends.append(path)
-        rec["dec"] = effective_decision(nd, raw)
+        if bad_decision(nd, raw):
+            self.bad_decisions.append(path)       # the framework rejects what the gate returns: no decision is taken
+        else:
+            rec["dec"] = effective_decision(nd, raw)
         return decode_decision(nd, raw)
 
     def handler(self, path, args):
@@ -119,6 +123,17 @@ class Runtime:
         return {o: IR.pyval(IR.answer_text(nd, j)) for j, o in enumerate(outs)}
 
 
+BAD_TARGET = "no_such_target"
+
+
+def bad_decision(nd, raw):
+    """Mirror of HGEngine!BadDecision: a route gate returning a name outside its targets ("~bad" stands
+    for one), or a list although it is single-target."""
+    if nd["kind"] != "route" or raw == [IR.NONE]:
+        return False
+    return (not nd["multi"] and len(raw) > 1) or any(t not in nd["targets"] for t in raw)
+
+
 def effective_decision(nd, raw):
     """The decision the gate takes (list of strings, as in the model): fallback for None, [] for none."""
     if raw == [IR.NONE]:
@@ -131,15 +146,14 @@ def effective_decision(nd, raw):
 def decode_decision(nd, raw):
     """Raw scripted decision (list of strings) -> what the routing function returns."""
     def tgt(t):
-        return END if t == "END" else t
+        return END if t == "END" else BAD_TARGET if t == "~bad" else t
     if nd["kind"] == "ifelse":
         assert len(raw) == 1 and raw[0] in nd["targets"], (nd["name"], raw)
         return raw[0] == nd["targets"][0]
     if raw == [IR.NONE]:
         return None
-    if nd["multi"]:
+    if nd["multi"] or len(raw) > 1:
         return [tgt(t) for t in raw]
-    assert len(raw) == 1, (nd["name"], raw)
     return tgt(raw[0])
 
 
@@ -343,14 +357,27 @@ def run_job(job, *, runner=None, event_processors=None, max_concurrency=None, ca
         except Exception as e:  # noqa: BLE001
             if not rt.log and not isinstance(e, Boom):
                 raise            # rejected before anything ran: classified by the caller
-            hit = [(p, i) for p, i, x in rt.raised if x is e]
             obs = {"status": "raised", "values": {}, "pause": {"path": IR.NONE, "key": IR.NONE, "value": IR.NONE},
-                   "err": {"path": hit[0][0], "kind": "body"} if hit else {"path": IR.NONE, "kind": "other:" + type(e).__name__ + ":" + str(e)[:200]},
+                   "err": classify_error(rt, e),
                    "calls": _calls(rt), "ends": list(rt.ends), "warnings": [str(w.message)[:200] for w in wlist]}
             return obs, rt, None
     obs = observe(rt, r)
     obs["warnings"] = [str(w.message)[:200] for w in wlist if issubclass(w.category, UserWarning)]
     return obs, rt, r
+
+
+def classify_error(rt, e):
+    """{path, kind} of a run's error: "body" = raised by a harness body (identity preserved), "decision" =
+    the framework rejected what a gate returned (raised by the gate's executor), else other:<type>:<text>."""
+    hit = [(p, i) for p, i, x in rt.raised if x is e]
+    if hit:
+        return {"path": hit[0][0], "kind": "body"}
+    if rt.bad_decisions and isinstance(e, (ValueError, TypeError)) and str(e).startswith("Gate '"):
+        name = str(e).split("'")[1]
+        for p in rt.bad_decisions:
+            if p.rsplit("/", 1)[-1] == name:
+                return {"path": p, "kind": "decision"}
+    return {"path": IR.NONE, "kind": "other:" + type(e).__name__ + ":" + str(e)[:200]}
 
 
 def _calls(rt):
@@ -367,8 +394,7 @@ def observe(rt, r):
         if isinstance(r.error, InfiniteLoopError):
             err = {"path": IR.NONE, "kind": "infinite"}
         else:
-            hit = [(p, i) for p, i, e in rt.raised if e is r.error]
-            err = {"path": hit[0][0], "kind": "body"} if hit else {"path": IR.NONE, "kind": "other:" + type(r.error).__name__ + ":" + str(r.error)[:200]}
+            err = classify_error(rt, r.error)
     pause = {"path": IR.NONE, "key": IR.NONE, "value": IR.NONE}
     if r.pause is not None:
         pause = {"path": r.pause.node_name, "key": r.pause.output_param, "value": IR.canon(r.pause.value),
